@@ -117,6 +117,45 @@ def judge(ctx: Ctx, hist: list, obs: list) -> None:
         ctx.nontrivial.add(json.dumps(c, sort_keys=True) + "|" + json.dumps(step["reg"]))
 
 
+def trace_api(ctx: Ctx) -> None:
+    """B2: the repository's own test-suite, run under the API tracer, must be a behaviour of the gate (TraceApi.tla)."""
+    import os, subprocess, copy
+    from .common import REPO, VERIF
+    nd = ctx.scratch / "api.ndjson"
+    env = dict(os.environ, JOSERFC_VERIF="1", JOSERFC_VERIF_TRACE=str(nd), PYTHONPATH=f"{REPO / 'src'}:{VERIF}", PYTHONDONTWRITEBYTECODE="1")
+    p = subprocess.run(["/venv/bin/python", "-B", "-m", "pytest", "-q", "-p", "no:cacheprovider", "-p", "harness.verif_pytest_plugin", "-x", "--co", "-q"],
+                       cwd=str(REPO), env=env, capture_output=True, text=True, timeout=300)
+    p = subprocess.run(["/venv/bin/python", "-B", "-m", "pytest", "-q", "-p", "no:cacheprovider", "-p", "harness.verif_pytest_plugin"],
+                       cwd=str(REPO), env=env, capture_output=True, text=True, timeout=900)
+    if not nd.exists():
+        raise MachineryError("tracer produced no events: " + p.stdout[-300:] + p.stderr[-300:])
+    events = [json.loads(l) for l in nd.read_text().splitlines() if l.strip()]
+    if len(events) < 300:
+        raise MachineryError(f"only {len(events)} API events recorded from the repository's tests")
+
+    def validate(evs, name):
+        f = ctx.scratch / f"{name}.json"
+        f.write_text(json.dumps(evs))
+        r = ctx.tlc("TraceApi", env={"TRACE_FILE": str(f)}, timeout=600)
+        if not r.cases or r.distinct < len(evs):
+            raise MachineryError("TraceApi did not consume the whole trace")
+        return r.cases[-1]
+    rep = validate(events, "api_trace")
+    for rj in rep["rejected"]:
+        ctx.violation(f"traceapi:{rj['api']} {rj['clause']}", {"event_seq": rj["seq"], "names": rj["names"], "source": "repository test-suite under the API tracer"})
+    # binding demonstration: corrupt one recorded field -> the trace must be rejected at that event
+    ok_ev = next(i for i, e in enumerate(events) if e["judged"] and e["outcome"] == "ok" and e["side"] == "jws" and e["entries"] and e["entries"][0]["alg"] == "HS256")
+    bad = copy.deepcopy(events[:ok_ev + 1]); bad[ok_ev]["entries"][0]["alg"] = "HS384"; bad[ok_ev]["algorithms"] = []; bad[ok_ev]["algorithms_given"] = False
+    bad[ok_ev]["registry_given"] = False; bad[ok_ev]["registry_has_list"] = False
+    rep2 = validate(bad, "api_trace_corrupted")
+    if not any(r["seq"] == bad[ok_ev]["seq"] for r in rep2["rejected"]):
+        raise MachineryError("binding demonstration failed: a corrupted API event was accepted by TraceApi")
+    ctx.traces += 1
+    ctx.evaluations += len(events)
+    ctx.notes["api_trace"] = {"events": len(events), "judged_ok": rep["judged_ok"], "rejected": len(rep["rejected"]),
+                              "source": "repository test-suite (pytest -p harness.verif_pytest_plugin)", "binding_demo": "corrupted event rejected"}
+
+
 def dedupe(cases):
     seen, out = set(), []
     for h in cases:
@@ -166,6 +205,7 @@ def run(ctx: Ctx) -> None:
         for h, o in zip(hists, obs_h):
             judge(ctx, h, o)
     ctx.traces = len(singles) + len(hists)
+    trace_api(ctx)
     ctx.exhaustive = thorough
     ctx.notes["behaviours"] = {"single_calls": len(singles), "histories_2": len(hists2), "histories_sim": len(hists4)}
     ctx.rule = ("each TLC behaviour = a sequence of draft registrations and calls (side, op, serialization, alg/enc/zip name incl. unknown, "
